@@ -799,8 +799,8 @@ class DirectoryRecord:
                     self.children[index].data_continuation = child
                     self.children[index].file_flags |= (1 << self.FILE_FLAG_MULTI_EXTENT_BIT)
                     index += 1
-        self.children.insert(index, child)
 
+        rr_index = -1
         if child.rock_ridge is not None and not child.is_dot() and not child.is_dotdot():
             lo = 0
             hi = len(self.rr_children)
@@ -819,6 +819,21 @@ class DirectoryRecord:
                     raise pycdlibexception.PyCdlibInternalError('Expected all children to have Rock Ridge, but one did not')
             rr_index = lo
 
+            if check_overflow and rr_index > 0:
+                # When adding a new entry (as opposed to parsing an existing
+                # ISO), a second entry with the same Rock Ridge name is a
+                # duplicate, unless it is a further extent of the same file or
+                # one of the two is a relocated directory, whose logical parent
+                # is elsewhere.
+                prev = self.rr_children[rr_index - 1]
+                if prev.rock_ridge is not None and prev.rock_ridge.name() == child.rock_ridge.name() and \
+                   prev.file_ident != child.file_ident and \
+                   not prev.rock_ridge.relocated_record() and not child.rock_ridge.relocated_record():
+                    raise pycdlibexception.PyCdlibInvalidInput('Failed adding duplicate Rock Ridge name to parent')
+
+        self.children.insert(index, child)
+
+        if rr_index >= 0:
             self.rr_children.insert(rr_index, child)
 
         # We now have to check if we need to add another logical block.
